@@ -30,6 +30,9 @@ CLASSIFIED = {
 KEYED_SINK_OK = {"len", "new", "clone", "insert", "into_iter", "next", "map", "collect", "deref", "iter", "drop",
                  "is_empty", "from_iter", "branch", "from_residual", "as_ref"}
 
+# lazy, order-preserving adaptors: applied to a hash iterator they reveal nothing themselves; what consumes the adapted iterator does
+LAZY_ADAPTORS = {"filter", "map", "filter_map", "copied", "cloned", "inspect", "by_ref"}
+
 ENTROPY = ["rand::", "getrandom::", "std::collections::hash_map::RandomState::new", "ahash::RandomState::new",
            "ahash::RandomState::with_seed", "std::thread::spawn", "std::thread::Builder", "std::time::Instant::now",
            "std::time::SystemTime::now", "std::process::id", "std::env::var", "std::ptr::addr", "expose_provenance",
@@ -100,6 +103,9 @@ def reveal_sites(b):
                 and name not in ("iter", "iter_mut", "keys", "values", "values_mut", "into_keys", "into_values", "drain",
                                  "extract_if", "difference", "intersection", "union", "symmetric_difference", "into_iter",
                                  "clone", "default", "new"):
+            if name in LAZY_ADAPTORS and f["path"].startswith("std::iter::Iterator::") and is_hashy(at):
+                # judged where the upstream hash iteration is judged (keyed_sink_loop follows the adapted iterator to its consumer)
+                continue
             out.append((i, t, "produces:" + name))
             continue
         if not recv_hash and not is_hashy(res) and not is_hashy(path):
@@ -147,9 +153,24 @@ def keyed_sink_loop(crate, b, i, t):
     """The values of the hash iteration feed a loop whose body only calls order-insensitive sinks."""
     after = b.reachable_after(i)
     loops = [(h, body) for h, body, _ in b.loops() if h in after]
-    nxt = [(j, tt) for j, tt in b.calls() if tt.get("f") and tt["f"]["name"] == "next" and is_hashy(tt["f"].get("resolved") or tt["f"].get("self_ty") or "")]
+    src = t["dest"]["l"]
+    nxt = [(j, tt) for j, tt in b.calls() if tt.get("f") and tt["f"]["name"] == "next" and
+           (is_hashy(tt["f"].get("resolved") or tt["f"].get("self_ty") or "") or (tt["args"] and src in q.slice_locals(b, tt["args"][0])))]
     if not nxt:
         return False, "the hash iterator is not consumed by a plain loop"
+    # closures handed to lazy adaptors between the hash iteration and the loop run once per element, in hash order: same discipline
+    for j, tt in b.calls():
+        f = tt.get("f")
+        if f and f["name"] in LAZY_ADAPTORS and len(tt["args"]) > 1 and src in q.slice_locals(b, tt["args"][0]):
+            d = b.origin(tt["args"][1])
+            cdef = (d.get("r") or {}).get("def") if d.get("k") == "rvalue" else None
+            cbs = [c for c in crate.bodies if c.kind == "Closure" and cdef and (c.path == cdef or (c.parent and c.parent == cdef))]
+            if not cbs:
+                return False, "the closure given to %s over hash-ordered values could not be found" % f["name"]
+            for c in cbs:
+                for k, ct in c.calls():
+                    if ct.get("f") and ct["f"]["name"] not in KEYED_SINK_OK | LAZY_ADAPTORS:
+                        return False, "closure of %s over hash-ordered values calls %s (possibly order-sensitive)" % (f["name"], ct["f"]["path"])
     for j, tt in nxt:
         for h, body in loops:
             if j not in body:
